@@ -70,11 +70,11 @@ type Case struct {
 }
 
 type countingReader struct {
-	data      []byte
-	pos       int
-	loopFrom  int // >=0: endless, restart here
-	chunk     int
-	count     int64
+	data     []byte
+	pos      int
+	loopFrom int // >=0: endless, restart here
+	chunk    int
+	count    int64
 	// hookAt > 0: hook is called once, from inside Read, when the read position
 	// has reached hookAt (used to cancel while a Scan is in progress)
 	hookAt int
@@ -538,12 +538,12 @@ func TestPBFStop(t *testing.T) {
 // ---------------------------------------------------------------- XML scanner
 
 type XCase struct {
-	N      int // elements in the document
-	K      int
-	Stop   int
-	After  []int
-	Chunk  int
-	CutAt  int // >0: truncate the document after this many bytes (clamped)
+	N     int // elements in the document
+	K     int
+	Stop  int
+	After []int
+	Chunk int
+	CutAt int // >0: truncate the document after this many bytes (clamped)
 	// Filler > 0: after element FillerAfter the document holds Filler bytes of
 	// comments and unknown elements (no OSM objects); with CancelInFiller the
 	// context is cancelled from inside Read, by a second goroutine, once the
